@@ -95,7 +95,52 @@ def guard_atoms(body, bb):
     return out
 
 
-ITER_FIND = ("std::iter::Iterator::find", "std::iter::Iterator::position", "std::iter::Iterator::rposition")
+ITER_FIND = ("std::iter::Iterator::find", "std::iter::Iterator::position", "std::iter::Iterator::rposition", "std::iter::Iterator::find_map")
+
+
+def some_conditions(prog, fn_key, depth=0):
+    """Atoms (expr, truth) that hold whenever the Option-returning closure fn_key returns `Some(..)` (those common to all its
+    Some-returning paths) - what `it.find_map(f)` guarantees about the element it found."""
+    fn = prog.fns[fn_key]
+    body = fn.body
+    flow = {0}
+    for _ in range(4):
+        for l in list(flow):
+            for d in body.defs().get(l, []):
+                if d[0] == "stmt" and d[3]["k"] == "=" and d[3]["rv"]["k"] == "use":
+                    op = d[3]["rv"]["op"]
+                    pl = op.get("c") or op.get("m")
+                    if pl is not None and not pl["p"] and pl["l"] > body.arg_count:
+                        flow.add(pl["l"])
+    paths = []
+    for l in flow:
+        for d in body.defs().get(l, []):
+            if body.blocks[d[1]]["cleanup"]:
+                continue
+            if d[0] == "call":
+                return []           # an Option produced by a call: unknown when it is Some
+            if d[3]["k"] != "=":
+                continue
+            rv = d[3]["rv"]
+            if rv["k"] == "agg" and rv.get("variant") == "Some":
+                paths.append([(e, pol) for (e, pol, v, sb) in _guard_atoms_local(body, d[1]) if pol is not None])
+            elif rv["k"] == "agg" and rv.get("variant") == "None":
+                continue
+            elif rv["k"] == "use":
+                pl = rv["op"].get("c") or rv["op"].get("m")
+                if pl is not None and not pl["p"] and pl["l"] in flow:
+                    continue
+                # `opt` passed through unchanged on this path (e.g. the kept arm of a desugared `filter`): Some iff it was Some
+                paths.append([(e, pol) for (e, pol, v, sb) in _guard_atoms_local(body, d[1]) if pol is not None])
+            else:
+                return []
+    if not paths:
+        return []
+    common = None
+    for atoms in paths:
+        ks = {(canon(e), pol) for (e, pol) in atoms}
+        common = ks if common is None else (common & ks)
+    return [(deep(prog, fn_key, e), pol) for (e, pol) in paths[0] if (canon(e), pol) in common]
 
 
 def _find_guards(body, atoms):
@@ -117,7 +162,8 @@ def _find_guards(body, atoms):
             continue
         fa = strip(c[2][1])
         if fa[0] == "agg" and isinstance(fa[1], str) and fa[1] in prog.fns:
-            for (ce, cpol) in true_conditions(prog, fa[1]):
+            conds = some_conditions(prog, fa[1]) if c[1].endswith("::find_map") else true_conditions(prog, fa[1])
+            for (ce, cpol) in conds:
                 out.append((ce, cpol, 1 if cpol else 0, sb))
     return out
 
@@ -405,7 +451,8 @@ def dispatch_table(prog, inst_id, subject_canon, ea, variants):
     if not found:
         return None
     for (val, name) in variants:
-        reached, _ = PEval(body, assume_discr(subject_canon, val)).run()
+        # (the variant decides `match subject` and `subject == Enum::V` tests alike)
+        reached, _ = PEval(body, assume_enum_value(subject_canon, val, name)).run()
         evs = set()
         returns = False
         for b in reached:
